@@ -247,7 +247,7 @@ TIE_TEXT = {
     "motion": " The motion and halt commands are translated across both classes (tools/gen_motion.py -> Gen/MotionSrc.lean: move, rapid, "
               "move_absolute, rapid_absolute with the absolute_mode() context manager inlined, set_axis, auto_home, probe, halt, wait/pause/stop, "
               "emergency_halt, comment, add_hook/remove_hook and their helpers in gscrib/gcode_builder.py and gscrib/gcode_core.py) and "
-              "Props/MotionTie.lean (14 theorems) re-proved for every state, finite target, parameter list and hook list: same outcome, same builder "
+              "Props/MotionTie.lean (16 theorems; set_length_units and the mode context managers as enter / exit pairs included) re-proved for every state, finite target, parameter list and hook list: same outcome, same builder "
               "afterwards (a rejected call leaves it untouched: MotionTie_reject_unchanged/_silent), same statements in the same order "
               "(instruction, axis words, other words, the G90/G91 bracket), same hook calls with the true origin and target.",
     "point": " Translator tie: Point.resolve/replace/mask/combine/within_bounds of gscrib/geometry/point.py are translated by AST into Lean on "
@@ -283,6 +283,19 @@ TIE_TEXT = {
               "comment-symbol table as constants is translated (tools/gen_format.py -> Gen/FormatSrc.lean); Props/FormatTie.lean (16 theorems): "
               "number guards, parameters ordering, command, comment sanitising order, line and the setters equal the formatter model; validated "
               "through driver mode formatsrc.",
+    "sender": " Translator tie: the atomic sections of the bundled sender (gscrib/printrun/printcore.py: _sendnext in all its branches, _send "
+              "with framing and _checksum, _reset_line_numbers, startprint, one trip of the _listen / _listen_until_online loop bodies) and the "
+              "line preparation of gcoder.py are translated as sequential functions that record the whole object at every write "
+              "(tools/gen_sender.py -> Gen/SenderSrc.lean); Props/SenderTie.lean (15 theorems): the model's sendnext / listen / frame / checksum "
+              "/ prepare equal the translated code, clear is down and the resend cursor already advanced at the moment of each write "
+              "(SenderTie_resend_cursor_at_write pins the order repaired by fix 940214b); validated against a real printcore object through "
+              "driver mode sendersrc.",
+    "dwrite": " Translator tie: the caller-side sections of PrintrunWriter (write cut at its blocking point into clear-ack/enqueue and "
+              "wait/re-raise, the wait loops as one poll, disconnect, the pending predicate, the callbacks) and the printcore methods they rely "
+              "on (send, startprint, the priority-queue and end-of-job branches of _sendnext) are translated (tools/gen_dwrite.py -> "
+              "Gen/DirectWriteSrc.lean); Props/DirectWriteTie.lean (22 theorems): the model's caller / print-thread / callback actions equal "
+              "the translated sections - the ack flag is lowered before the statement is handed over and the stored error is read after the "
+              "wait; validated through driver mode dwritesrc.",
     "height": " Translator tie: the raster, sparse and flat heightmap classes (gscrib/heightmaps/) are translated around their external "
               "interpolants (tools/gen_height.py -> Gen/HeightSrc.lean); Props/HeightTie.lean (21 theorems): range checks, argument order of the "
               "interpolant, rounding (pyRound = roundHalfEven proved), segment counts, filtering and the setters equal the heightmap model; "
